@@ -125,8 +125,8 @@ CLAIMED = {
             'generated from the source on every run, every schedule of any number of threads gives every returned call a '
             'complete tokenizer; refutation witness for publish-before-fill; + deterministic sys.settrace scheduler enumerating '
             'all single-preemption schedules on the real code with trace validation against the model',
-            'Invariant proof over all schedules of the abstract program of get_advanced_tokenizer; the program is regenerated from '
-            'the AST on every run and Tie/ThreadProg.v re-proves its safety hypothesis; each real execution is replayed on the '
+            'Invariant proof over all schedules of any abstract program meeting the decidable criterion safe_order; the program of get_advanced_tokenizer is regenerated from '
+            'the AST on every run and Tie/ThreadProg.v re-proves safe_order for it; each real execution is replayed on the '
             'model (traces_validated_against_impl). The inventory of statements that can write to an object the call did not create '
             '(gen/Writes.v, regenerated from both source files) is proved confined to the tokenizer builders and the publication (Tie/Writes.v).',
             'Partial: bytecode-level switches inside a line, the GIL / free-threaded builds and C-level atomicity are not modelled.', 'DESIGN.md section 4 C20'),
